@@ -111,11 +111,15 @@ RrOnePerVisit == cfg.policy = "RR" =>
   \A k \in 1..(Len(sellog) - 1) :
      (sellog[k].c = sellog[k + 1].c /\ ~sellog[k + 1].idle) =>
         \A p \in sellog[k + 1].wait : p.c = sellog[k].c \/ p.at = sellog[k + 1].t
-\* WRR: never more than weight consecutive services of one class while another class waits
+\* WRR: in any run of weight + 1 consecutive services of one class, one of the later services starts a new visit:
+\* at its start no other class had a packet that had arrived before that instant (the pointer went round past empty
+\* classes), or the scheduler had been idle
 WrrAllowance == cfg.policy = "WRR" =>
   \A k \in 1..Len(sellog) :
     LET c == sellog[k].c  n == cfg.w[c] IN
-      (k > n /\ \A m \in (k - n)..k : sellog[m].c = c /\ (m > k - n => ~sellog[m].idle)) => \A p \in sellog[k].wait : p.c = c \/ p.at = sellog[k].t
+      (k > n /\ \A m \in (k - n)..k : sellog[m].c = c) =>
+         \E m \in (k - n + 1)..k :
+            sellog[m].idle \/ \A p \in sellog[m].wait : p.c = c \/ p.at = sellog[m].t
 \* cyclic order: between two consecutive services the pointer never skips a class that had a packet waiting
 \* at the later start (checked for two-class configurations: serving c twice with the other class waiting is
 \* only allowed within the visit's allowance, covered above)
